@@ -407,6 +407,12 @@ fn build_set(ch: &mut Choices<'_>, p: Params) -> SetModel {
         MExpr::Comb { op, items }
     };
     let lo = long_chain(LOp::Or, OrdOp::Eq);
+    // the values that decide the long `or`: most contexts get one of them, so that the deciding
+    // operand differs between the contexts that threads work on at the same time
+    let or_vals: Vec<i64> = match &lo {
+        MExpr::Comb { items, .. } => items.iter().filter_map(|e| if let MExpr::Cmp { op: MOp::Ord(_, MLit::Int(i)), .. } = e { Some(i.v) } else { None }).collect(),
+        _ => vec![],
+    };
     let la = long_chain(LOp::And, OrdOp::Ne);
     let lx = long_chain(LOp::Xor, OrdOp::Ge);
     for (e, o) in [
@@ -453,6 +459,13 @@ fn build_set(ch: &mut Choices<'_>, p: Params) -> SetModel {
     }
     let lists = g::gen_lists(gen_.ch, &recipe, &hints);
     let mut ctxs: Vec<MCtx> = (0..p.nctx).map(|_| g::gen_ctx(gen_.ch, &recipe, &hints)).collect();
+    if let Some((ni, _)) = recipe.field(&n0) {
+        for (j, c) in ctxs.iter_mut().enumerate() {
+            if j % 2 == 1 && !or_vals.is_empty() {
+                c.vals[ni] = Some(MVal::Int(or_vals[(j * 7) % or_vals.len()]));
+            }
+        }
+    }
     if let Some((bi, _)) = recipe.field(&b0) {
         for (k, n) in needles.iter().enumerate() {
             if let Some(c) = ctxs.get_mut(2 * k) {
